@@ -30,6 +30,8 @@ type GenOpts struct {
 	// UnionSelfFragment allows fragments on the union type itself inside a
 	// union-typed selection set (`... on Thing { ... on Node { id } }`).
 	UnionSelfFragment bool
+	// AvoidTypes lists result types whose fields are never selected.
+	AvoidTypes map[string]bool
 	// PreferObjectDup makes duplicated selections favour object fields (whose
 	// sub-selections then have to be merged).
 	PreferObjectDup bool
@@ -219,6 +221,9 @@ func (g *generator) field(t *TypeDesc, depth int, forceLeaf bool) *Field {
 	for tries := 0; ; tries++ {
 		fd = t.Fields[t.Order[g.r.Intn(len(t.Order))]]
 		if g.o.NoUnions && fd.Ret.Base().Kind == KUnion {
+			continue
+		}
+		if g.o.AvoidTypes[fd.Ret.Base().Name] {
 			continue
 		}
 		if fd.IsLeaf() || (depth > 1 && !forceLeaf) {
